@@ -54,7 +54,7 @@ def run(ctx):
         }
     # ---- L1
     ctx.l1()
-    have_model = (not regen_err) and ctx.ensure_driver()
+    have_model = (not regen_err) and ctx.ensure_driver("router")
     if not ctx.ensure_harness():
         return
     # ---- inputs
@@ -100,6 +100,17 @@ def run(ctx):
                 proj_model=lambda i, o: dict(proj(o["ro"]), rpath=i.get("rpath"), parse=i.get("parse")))
         compare(ctx, "router:dispatch-control", reqs, impl, model,
                 proj_impl=lambda i, o: proj(o["rw"]), proj_model=lambda i, o: proj(o["rw"]))
+        # the same router mounted under an outer chi router, as cmd/serve.go serves it, dispatches as the model says too
+        # (a method string chi does not know is answered 405 by the outer mux before the api router sees it: compared for chi's nine methods)
+        # and a routing path without a leading slash ("*") is a 404 of the outer mux)
+        CHI = ("GET", "HEAD", "OPTIONS", "POST", "PUT", "PATCH", "DELETE", "CONNECT", "TRACE")
+
+        def outer_passes(i):
+            return i["method"] in CHI and str(i.get("rpath") or "").startswith("/")
+        compare(ctx, "router:dispatch-read-only(mounted as cmd/serve.go)", [i for i in reqs if "ro_m" in impl.get(i["id"], {}) and outer_passes(i)], impl, model,
+                proj_impl=lambda i, o: proj(o["ro_m"]), proj_model=lambda i, o: proj(o["ro"]))
+        compare(ctx, "router:dispatch-control(mounted as cmd/serve.go)", [i for i in reqs if "rw_m" in impl.get(i["id"], {}) and outer_passes(i)], impl, model,
+                proj_impl=lambda i, o: proj(o["rw_m"]), proj_model=lambda i, o: proj(o["rw"]))
         # a handler seen writing must be classified `writes` by the extractor
         compare(ctx, "router:observed-writer-is-classified-write", [i for i in reqs if impl.get(i["id"], {}).get("rw", {}).get("writes")],
                 impl, model, proj_impl=lambda i, o: True, proj_model=lambda i, o: bool(o["rw"].get("writes")))
@@ -120,13 +131,19 @@ def run(ctx):
                 ctx.l2_broken.append({"stream": "router-panic", "id": i["id"], "input": i, "impl": x})
         oc["ro:" + str(ro.get("outcome"))] += 1
         oc["control:" + str(rw.get("outcome"))] += 1
-        wr = [k for k in ro.get("writes", []) if k in WRITE_KINDS]
-        if wr:
-            sig = {"property": "C19", "class": "write-in-read-only", "writes": sorted(set(wr)), "method": i["method"],
-                   "endpoint": ro.get("matched", "")}
-            ctx.violation(sig, "read-only router: %s %s executed %s on the backend (status %s, endpoint %s)" % (
-                i["method"], i["target"], "+".join(wr), ro.get("status"), ro.get("matched") or "?"),
-                {"area": "router", "input": i, "observed": ro})
+        for shape, x in (("alone", ro), ("mounted as cmd/serve.go mounts it", o.get("ro_m") or {})):
+            if "panic" in x and shape != "alone":
+                ctx.l2_broken.append({"stream": "router-panic", "id": i["id"], "input": i, "impl": x})
+            wr = [k for k in x.get("writes", []) if k in WRITE_KINDS]
+            if wr:
+                sig = {"property": "C19", "class": "write-in-read-only", "writes": sorted(set(wr)), "method": i["method"],
+                       "endpoint": x.get("matched", "")}
+                if shape != "alone":
+                    sig["shape"] = "mounted"
+                ctx.violation(sig, "read-only router (%s): %s %s executed %s on the backend (status %s, endpoint %s)" % (
+                    shape, i["method"], i["target"], "+".join(wr), x.get("status"), x.get("matched") or "?"),
+                    {"area": "router", "input": i, "observed": x, "shape": shape})
+                oc["ro-writes:" + ("alone" if shape == "alone" else "mounted")] += 1
         if [k for k in rw.get("writes", []) if k in WRITE_KINDS]:
             would_write += 1
             would_write_routes[rw.get("matched", "")] += 1
@@ -147,7 +164,8 @@ def run(ctx):
                        "(9 chi methods + %d odd method strings) x (1 intact + %d mutated: trailing/double slash, other ledger names, "
                        "%%-encoding, case, dot segments, truncation, extra segment, v1<->v2, prefix dropped, absolute form) x bodies "
                        "(create/script/metadata/revert/bulk/garbage) x override headers x query strings, each run on a readOnly=true and a "
-                       "readOnly=false router; non-trivial = distinct request that net/http hands to the router (not refused as malformed)") % (
+                       "readOnly=false router, each both alone and mounted under an outer chi router as cmd/serve.go does; + every route with a path parameter x "
+                       "10 escaped spellings of that parameter (%%2F, %%2f, %%252F, %%20, %%3A, first byte encoded, …) with the route's own method and body; non-trivial = distinct request that net/http hands to the router (not refused as malformed)") % (
                            len([m for m in methods_seen if m not in ("GET", "HEAD", "OPTIONS", "POST", "PUT", "PATCH", "DELETE", "CONNECT", "TRACE")]), n - 1)
     ctx.cov["outcomes"] = dict(sorted(oc.items()))
     ctx.cov["control_stream"] = {
